@@ -86,6 +86,8 @@ structure Dev where
   act : Nat → Loc → Val → Loc × Val     -- reaction to control event number `code`
   tick : Loc → Val → Loc × Val := fun l v => (l, v)    -- one time unit passes while the mode runs
   loc0 : Loc := {}             -- the device-local state when the mode starts
+  announce : Bool := false     -- the device writes its state through `Player.__setattr__` on every load / control
+                               -- event / tick (a timer's `ticks` setter), so every change posts `player_<key>`
 
 structure Cfg where
   initVars : List (String × Val) := []     -- player_vars section: (name, initial value)
@@ -100,6 +102,10 @@ structure St where
   dev : Option Nat := none       -- the game mode is running and its devices point into this player's dictionary
   locs : List Loc := []          -- device-local state, one entry per device (meaningful while `dev ≠ none`)
   machine : Vars := []           -- machine variables (not owned by any player)
+  hold : Bool := false           -- a stop of the game mode was requested and its `mode_<n>_stopping` queue event is held
+                                 -- by some handler (an outro): the mode is still active, its devices still bound
+  ending : Bool := false         -- a ball end was requested behind the held stop: `ModeController._ball_ending` waits
+                                 -- for the mode's stop to finish before the ball ends
   deriving Repr
 
 inductive Op
@@ -120,6 +126,9 @@ inductive Op
   | drainPre                         -- a drain during which a start request arrives after the ball ended but before the
                                      -- turn ended: the mode restarts bound to the player who is still up, and stops
                                      -- again when that turn ends
+  | modeStopHold                     -- a stop request for the game mode with a handler holding `mode_<n>_stopping`
+  | release                          -- the held `mode_<n>_stopping` queue event is released: the stop finishes, and a
+                                     -- ball end that was waiting behind it takes place
   deriving DecidableEq, Repr
 
 /-- `Player.__init__`: index, number, the configured initial values, score — no events yet -/
@@ -151,6 +160,16 @@ def loadAll : List Dev → Vars → Vars
   | [], m => m
   | d :: r, m => loadAll r (put m d.key (match get m d.key with | some v => d.load v | none => d.fresh))
 
+/-- the `player_<key>` event of a device that writes `v` under its key through `Player.__setattr__` -/
+def devEv (d : Dev) (m : Vars) (num : Nat) (v : Val) : List Ev := if d.announce then (setVar m num d.key v).2 else []
+
+/-- the events of `loadAll` (player number `num`), in device order -/
+def loadEvs : List Dev → Nat → Vars → List Ev
+  | [], _, _ => []
+  | d :: r, num, m =>
+    let v := match get m d.key with | some v => d.load v | none => d.fresh
+    devEv d m num v ++ loadEvs r num (put m d.key v)
+
 def intVar (m : Vars) (k : String) : Int := match get m k with | some (.int b) => b | _ => 0
 
 /-- the game mode starts for player `i` -/
@@ -160,10 +179,14 @@ def modeStart (c : Cfg) (s : St) (i : Nat) : St :=
 /-- the ball starts: the game mode starts with it when `ball_started` is among its start events -/
 def ballStart (c : Cfg) (s : St) (i : Nat) : St := if c.autoStart then modeStart c s i else s
 
+def modeStartEvs (c : Cfg) (s : St) (i : Nat) : List Ev := loadEvs c.devs (i + 1) (varsOf s i)
+
+def ballStartEvs (c : Cfg) (s : St) (i : Nat) : List Ev := if c.autoStart then modeStartEvs c s i else []
+
 /-- a player's turn starts: `ball += 1`, then the ball (and with it the game mode) starts -/
 def turnStart (c : Cfg) (s : St) (i : Nat) : St × List Ev :=
   let r := setOn { s with cur := i } i "ball" (.int (intVar (varsOf s i) "ball" + 1))
-  (ballStart c r.1 i, r.2)
+  (ballStart c r.1 i, r.2 ++ ballStartEvs c r.1 i)
 
 def setAt : List Loc → Nat → Loc → List Loc
   | [], _, _ => []
@@ -187,15 +210,42 @@ def elapse (devs : List Dev) : Nat → List Loc → Vars → List Loc × Vars
   | 0, ls, m => (ls, m)
   | n + 1, ls, m => let r := tickDevs devs ls m; elapse devs n r.1 r.2
 
+/-- the events of `tickDevs` / `elapse` (same traversal) -/
+def tickEvs : List Dev → Nat → List Loc → Vars → List Ev
+  | [], _, _, _ => []
+  | d :: ds, num, ls, m =>
+    match get m d.key with
+    | some v =>
+      let r := d.tick (ls.headD {}) v
+      devEv d m num r.2 ++ tickEvs ds num ls.tail (put m d.key r.2)
+    | none => tickEvs ds num ls.tail m
+
+def elapseEvs (devs : List Dev) (num : Nat) : Nat → List Loc → Vars → List Ev
+  | 0, _, _ => []
+  | n + 1, ls, m => let r := tickDevs devs ls m; tickEvs devs num ls m ++ elapseEvs devs num n r.1 r.2
+
 /-- the player a `variable_player` entry with `player: p+1` writes to: that player, or - as the code has it - the
 current player when there is no such player (IndexError is only logged) -/
 def targetOf (s : St) (p : Nat) : Nat := if p < s.players.length then p else s.cur
+
+/-- the ball ends (the game mode is not in a held stop): the mode stops, the pointer is dropped; extra ball → same player
+again; else next player / next ball / game over -/
+def drainStep (c : Cfg) (s : St) : St × List Ev :=
+    if s.players = [] then (s, []) else
+    let s0 := { s with dev := none }             -- ball ending: the mode stops, the pointer is dropped
+    let me := varsOf s0 s0.cur
+    if intVar me "extra_balls" ≠ 0 then
+      let r := setOn s0 s0.cur "extra_balls" (.int (intVar me "extra_balls" - 1))
+      (ballStart c r.1 s0.cur, r.2 ++ ballStartEvs c r.1 s0.cur)   -- shoot again: same player, `ball` not incremented
+    else if intVar me "ball" ≥ c.ballsPerGame ∧ s0.cur + 1 = s0.players.length then
+      ({ s with players := [], cur := 0, dev := none }, [])
+    else turnStart c s0 (if s0.cur + 1 < s0.players.length then s0.cur + 1 else 0)
 
 def step (c : Cfg) (s : St) : Op → St × List Ev
   | .startGame =>
     if s.players ≠ [] then (s, []) else
     let m := newVars c 0
-    let r := turnStart c { s with players := [m], cur := 0, dev := none } 0
+    let r := turnStart c { s with players := [m], cur := 0, dev := none, hold := false, ending := false } 0
     (r.1, broadcast m 1 ++ r.2)
   | .addPlayer =>
     let n := s.players.length
@@ -225,7 +275,8 @@ def step (c : Cfg) (s : St) : Op → St × List Ev
     | none => (s, [])                                -- no game mode runs: nothing of any player changes with time
     | some p =>
       let r := elapse c.devs n s.locs (varsOf s p)
-      ({ s with players := modify s.players p (fun _ => r.2), locs := r.1 }, [])
+      ({ s with players := modify s.players p (fun _ => r.2), locs := r.1 },
+       elapseEvs c.devs (p + 1) n s.locs (varsOf s p))
   | .dev d code =>
     match s.dev with
     | none => (s, [])
@@ -237,7 +288,8 @@ def step (c : Cfg) (s : St) : Op → St × List Ev
         | none => (s, [])
         | some v =>
           let r := dv.act code (s.locs.getD d {}) v
-          ({ s with players := modify s.players p (fun m => put m dv.key r.2), locs := setAt s.locs d r.1 }, [])
+          ({ s with players := modify s.players p (fun m => put m dv.key r.2), locs := setAt s.locs d r.1 },
+           devEv dv (varsOf s p) (p + 1) r.2)
   | .swap d1 d2 =>
     match s.dev with
     | none => (s, [])
@@ -249,31 +301,38 @@ def step (c : Cfg) (s : St) : Op → St × List Ev
            | _, _ => m)
         | _, _ => m) }, [])
   | .drain =>
-    if s.players = [] then (s, []) else
-    let s0 := { s with dev := none }             -- ball ending: the mode stops, the pointer is dropped
-    let me := varsOf s0 s0.cur
-    if intVar me "extra_balls" ≠ 0 then
-      let r := setOn s0 s0.cur "extra_balls" (.int (intVar me "extra_balls" - 1))
-      (ballStart c r.1 s0.cur, r.2)                -- shoot again: same player, `ball` not incremented
-    else if intVar me "ball" ≥ c.ballsPerGame ∧ s0.cur + 1 = s0.players.length then
-      ({ s with players := [], cur := 0, dev := none }, [])
-    else turnStart c s0 (if s0.cur + 1 < s0.players.length then s0.cur + 1 else 0)
-  | .endGame => ({ s with players := [], cur := 0, dev := none }, [])
-  | .modeStop => ({ s with dev := none }, [])
+    -- behind a held stop `_ball_ending` registers a callback with the stopping mode and waits: nothing else happens
+    if s.hold then ({ s with ending := true }, []) else drainStep c s
+  | .endGame => ({ s with players := [], cur := 0, dev := none, hold := false, ending := false }, [])
+  | .modeStop => if s.hold then (s, []) else ({ s with dev := none }, [])     -- `Mode.stop` while stopping: nothing
+  | .modeStopHold =>
+    match s.dev with
+    | none => (s, [])                              -- not active: `Mode.stop` returns at once
+    | some _ => ({ s with hold := true }, [])      -- stopping, but everything of the mode is still in place
+  | .release =>
+    if s.hold then
+      let s1 := { s with hold := false, ending := false, dev := none }     -- `_stopped` / `_finish_stop`: devices removed
+      if s.ending then drainStep c s1 else (s1, [])                       -- then the callbacks: the ball end goes on
+    else (s, [])
   | .modeStart =>
     if s.players = [] then (s, [])                 -- no game: refused
     else match s.dev with
       | some _ => (s, [])                          -- already active
-      | none => (modeStart c s s.cur, [])
+      | none => (modeStart c s s.cur, modeStartEvs c s s.cur)
   | .drainPre =>
+    if s.hold then ({ s with ending := true }, []) else
     if s.players = [] then (s, []) else
+    let ev0 := modeStartEvs c s s.cur
     let s0 := modeStart c { s with dev := none } s.cur     -- stopped at ball end, restarted for the same player
     let me := varsOf s0 s0.cur
     if intVar me "extra_balls" ≠ 0 then
-      setOn s0 s0.cur "extra_balls" (.int (intVar me "extra_balls" - 1))     -- still running: no reload
+      let r := setOn s0 s0.cur "extra_balls" (.int (intVar me "extra_balls" - 1))     -- still running: no reload
+      (r.1, ev0 ++ r.2)
     else if intVar me "ball" ≥ c.ballsPerGame ∧ s0.cur + 1 = s0.players.length then
-      ({ s with players := [], cur := 0, dev := none }, [])
-    else turnStart c { s0 with dev := none } (if s0.cur + 1 < s0.players.length then s0.cur + 1 else 0)
+      ({ s with players := [], cur := 0, dev := none }, ev0)
+    else
+      let r := turnStart c { s0 with dev := none } (if s0.cur + 1 < s0.players.length then s0.cur + 1 else 0)
+      (r.1, ev0 ++ r.2)
 
 def run (c : Cfg) : St → List Op → St
   | s, [] => s
@@ -326,7 +385,10 @@ def showVars (m : Vars) : String := ",".intercalate ((sortVars m).map (fun kv =>
 
 def showEv (e : Ev) : String := s!"{e.name}:{showVal e.value}:{showVal e.prev}:{showVal e.change}:{e.num}"
 
-def showOut (r : St × List Ev) : String :=
+def showOut (c : Cfg) (r0 : St × List Ev) : String :=
+  let isDev := fun (e : Ev) => c.devs.any (fun d => d.announce && d.key == e.name)
+  let r := (r0.1, r0.2.filter (fun e => !isDev e))
+  let dv := r0.2.filter isDev
   let s := r.1
   let g := if s.players = [] then "-" else toString (s.cur + 1)
   let up := match s.dev with | some p => toString (p + 1) | none => "-"
@@ -334,7 +396,7 @@ def showOut (r : St × List Ev) : String :=
     | some _ => String.ofList (s.locs.map (fun (l : Loc) => if l.run then '1' else '0'))
     | none => "-"
   let mv := match get s.machine "mvar" with | some v => showVal v | none => "-"
-  s!"cur={g} mode={up} run={rn} mv={mv} ev=[{" ".intercalate (r.2.map showEv)}] pl=[{"|".intercalate (s.players.map showVars)}]"
+  s!"cur={g} mode={up} run={rn} mv={mv} ev=[{" ".intercalate (r.2.map showEv)}] dv=[{" ".intercalate (dv.map showEv)}] pl=[{"|".intercalate (s.players.map showVars)}]"
 
 def parseInit : List String → Option (List (String × Val))
   | [] => some []
@@ -446,7 +508,7 @@ def tmTick (t : TimerCfg) (l : Loc) : Val → Loc × Val
 
 def timerDev (key : String) (t : TimerCfg) : Dev :=
   { key := key, fresh := .int t.start, load := fun _ => .int t.start, act := tmAct t, tick := tmTick t,
-    loc0 := if t.startRunning then tmStart t {} t.start else {} }
+    loc0 := if t.startRunning then tmStart t {} t.start else {}, announce := true }
 
 /-- a device without local state -/
 def plainDev (key : String) (fresh : Val) (load : Val → Val) (act : Nat → Val → Val) : Dev :=
@@ -504,6 +566,8 @@ def parseOp : List String → Option Op
   | ["modestop"] => some .modeStop
   | ["modestart"] => some .modeStart
   | ["drainpre"] => some .drainPre
+  | ["modestophold"] => some .modeStopHold
+  | ["release"] => some .release
   | _ => none
 
 /-- the harness lets one time unit pass after every request -/
@@ -524,12 +588,12 @@ def driverStep (cs : Cfg × St) (line : String) : (Cfg × St) × String :=
     | some d => (({ cs.1 with devs := cs.1.devs ++ [d] }, cs.2), "ok")
     | none => (cs, "bad-op")
   | ["drainpost"] =>                      -- a drain during which a start request arrives when the next player is up
-    let r := stepW cs.1 cs.2 [.drain, .modeStart]; ((cs.1, r.1), showOut r)
+    let r := stepW cs.1 cs.2 [.drain, .modeStart]; ((cs.1, r.1), showOut cs.1 r)
   | ["drainposthold"] =>                  -- ... and the queue event at which it arrived is held for one time unit
-    let r := stepW cs.1 cs.2 [.drain, .modeStart, .wait 1]; ((cs.1, r.1), showOut r)
+    let r := stepW cs.1 cs.2 [.drain, .modeStart, .wait 1]; ((cs.1, r.1), showOut cs.1 r)
   | toks =>
     match parseOp toks with
-    | some op => let r := stepW cs.1 cs.2 [op]; ((cs.1, r.1), showOut r)
+    | some op => let r := stepW cs.1 cs.2 [op]; ((cs.1, r.1), showOut cs.1 r)
     | none => (cs, "bad-op")
 
 def driverInit : Cfg × St := ({}, {})
